@@ -20,7 +20,7 @@ LEVEL = "model_checking"
 RULE = ("Part A (schedules): retries r in 1..4, every pattern of per-transmission answer delay from {none, 0.005, 0.5, 0.95, 1.05, "
         "1.5, 2.25} x T (7^r), T = the library's read timeout as measured against a silent device, V2 and V3; the device-side log of transmissions (count, instants) and the outcome are compared "
         "with a 6-line reference model of the retry contract; the r=3 patterns also through AirConditioner.refresh (online flag). "
-        "Part B (fault sequences, E2): every single fault and every ordered pair of consecutive faults from {drop, error packet, "
+        "Part B (fault sequences, E2): every single fault and every ordered pair of consecutive faults from {drop, all answers late (arriving only after the exchange gave up), error packet, "
         "marker-free garbage, marker-bearing garbage, peer close} x {handshake, data phase}, connect refused / unreachable / unresolvable / hanging, "
         "cancellation at every interval between loop events, from start states {cold, warm, peer-closed idle, auth expired}; "
         "then one exchange with an honest prompt device must succeed with no user call in between (V3: after a new handshake). "
@@ -239,6 +239,7 @@ def faults(version):
         out.append(("garbage", ph))
         out.append(("garbage-marker", ph))
         out.append(("close", ph))
+        out.append(("late", ph))          # every honest answer of this exchange arrives only after the exchange gave up
         if version == 3:
             out.append(("error", ph))
     out.append(("refuse", None))
@@ -268,12 +269,16 @@ def exec_B(version, start, seq, cancel_spec=None, trace_op=None):
     w = World()
     token, key = filler("c08/tok", 64), filler("c08/key", 32)
     cur = {"fault": None}
+    held = []
 
     def script(req):
         f = cur["fault"]
         if f is not None and f[1] == req.kind:
             kind = f[0]
             if kind == "drop":
+                return
+            if kind == "late":
+                held.extend((req.conn, p) for p in req.responses)
                 return
             if kind == "garbage":
                 req.send(garbage(version, False))
@@ -326,6 +331,12 @@ def exec_B(version, start, seq, cancel_spec=None, trace_op=None):
             res = type(e).__name__
         w.loop.trace_instants = None
         cur["fault"] = None
+        if held:
+            # the slow answers all arrive now (connections closed meanwhile swallow theirs), before the next exchange starts
+            for k, (conn, p) in enumerate(held):
+                conn.deliver(p, 0.001 * (k + 1))
+            del held[:]
+            await asyncio.sleep(0.05)
         log.append((res, ac.online))
         return res
 
